@@ -25,7 +25,7 @@ def growth_configs(quick):
     for c in cs:
         for osz in (1024, 2 * c):
             n0 = -(-(buf + (q + 4) * osz + 4 * c) // c)
-            mult = (1, 2, 4) if quick else (1, 2, 4, 8)
+            mult = (1, 2, 4) if quick else ((1, 2, 4, 8) if c <= 65536 else (1, 2))
             for m in mult:
                 n = n0 * m
                 if c * n > (160 << 20):
@@ -33,7 +33,7 @@ def growth_configs(quick):
                 count = max(1, (c * n) // osz)
                 for mode in "rw":
                     out.append(S.cfg(mode, [osz] * 1, 0, c, q, -1, "close", 0, 0, rep=count, static=1, bound=0,
-                                     horizon=200000000, alloccap=1 << 30, tagN=n))
+                                     horizon=200000000, alloccap=1 << 30, tagN=n, hang=900))
                     if not quick and m == 1 and c <= 65536:
                         # a stall / burst that starts anywhere: one priority change at every 64th scheduling point
                         for sh in range(4):
